@@ -255,30 +255,45 @@ func init() {
 
 		"math.Round": func(fr *frame, a []value) value {
 			if s, ok := a[0].(sym); ok {
+				if s.k == sReal {
+					return sym{sReal, 0, realRound(s.t)}
+				}
 				return sym{sF64, 0, "(fp.roundToIntegral RNA " + s.t + ")"}
 			}
 			return math.Round(a[0].(float64))
 		},
 		"math.Abs": func(fr *frame, a []value) value {
 			if s, ok := a[0].(sym); ok {
+				if s.k == sReal {
+					return sym{sReal, 0, realAbs(s.t)}
+				}
 				return sym{sF64, 0, "(fp.abs " + s.t + ")"}
 			}
 			return math.Abs(a[0].(float64))
 		},
 		"math.Floor": func(fr *frame, a []value) value {
 			if s, ok := a[0].(sym); ok {
+				if s.k == sReal {
+					return sym{sReal, 0, realFloor(s.t)}
+				}
 				return sym{sF64, 0, "(fp.roundToIntegral RTN " + s.t + ")"}
 			}
 			return math.Floor(a[0].(float64))
 		},
 		"math.Ceil": func(fr *frame, a []value) value {
 			if s, ok := a[0].(sym); ok {
+				if s.k == sReal {
+					return sym{sReal, 0, realCeil(s.t)}
+				}
 				return sym{sF64, 0, "(fp.roundToIntegral RTP " + s.t + ")"}
 			}
 			return math.Ceil(a[0].(float64))
 		},
 		"math.Trunc": func(fr *frame, a []value) value {
 			if s, ok := a[0].(sym); ok {
+				if s.k == sReal {
+					return sym{sReal, 0, realTrunc(s.t)}
+				}
 				return sym{sF64, 0, "(fp.roundToIntegral RTZ " + s.t + ")"}
 			}
 			return math.Trunc(a[0].(float64))
